@@ -10,5 +10,6 @@ extern size_t g_nul; extern int g_has_nul;   /* Skolem: an index < g_ssz holding
 extern size_t gk, gj;               /* arbitrary indices                                      */
 extern char g_old_k, g_old_j;       /* dest[gk], dest[gj] at entry                            */
 extern int g_writer;                /* 1: the function stores through dest (dmax <= g_ssz)    */
+extern size_t g_n0;                 /* n at entry (strnset_s counts it down)                  */
 extern int g_hcalls; extern int g_herr;
 #endif
